@@ -558,7 +558,52 @@ def phase_lemma(repo):
                            model=None if not bad else {'sites': bad}, native=native)], 'sha': {}}
 
 
+NO_REBREAK = ('render_block_code', 'render_fenced_code_block', 'render_html_block', 'render_table',
+              'render_thematic_break', 'render_heading', 'table_row_to_text', 'table_row_to_line',
+              'table_separator_line_to_text', 'calculate_table_column_widths')
+
+
+def no_rebreak_lemma(repo):
+    """C10 frame: code blocks, HTML blocks, tables and ATX headings are not re-broken - the methods that
+    write them never read the line-length budget (their `max_line_length` parameter, the renderer-wide
+    setting) and never call the line-filling functions with a limit."""
+    res = []
+    try:
+        tree = _module_tree(repo, 'mistletoe/markdown_renderer.py')
+    except OSError as e:
+        return {'results': [mk('frame:no-rebreak', 'undecided', 0, ['C10'], detail=str(e), kind='resolve')]}
+    found = {}
+    for n in ast.walk(tree):
+        if isinstance(n, ast.ClassDef) and n.name == 'MarkdownRenderer':
+            for f in n.body:
+                if isinstance(f, ast.FunctionDef) and f.name in NO_REBREAK:
+                    found[f.name] = f
+    for name in NO_REBREAK:
+        f = found.get(name)
+        if f is None:
+            res.append(mk('frame:no-rebreak:%s' % name, 'undecided', 0, ['C10'], fn='MarkdownRenderer.' + name,
+                          detail='method not found', kind='resolve'))
+            continue
+        bad = []
+        for n in ast.walk(f):
+            if isinstance(n, ast.Name) and n.id == 'max_line_length' and isinstance(n.ctx, ast.Load):
+                bad.append('reads max_line_length at line %d' % n.lineno)
+            if isinstance(n, ast.Attribute) and n.attr == 'max_line_length':
+                bad.append('reads .max_line_length at line %d' % n.lineno)
+            if isinstance(n, ast.Call) and isinstance(n.func, ast.Attribute) and n.func.attr in (
+                    'fragments_to_lines', 'span_to_lines', 'blocks_to_lines', 'make_words'):
+                lim = [k.value for k in n.keywords if k.arg == 'max_line_length'] + list(n.args[1:2])
+                if not (lim and isinstance(lim[0], ast.Constant) and lim[0].value is None):
+                    bad.append('calls %s with a limit at line %d' % (n.func.attr, n.lineno))
+        res.append(mk('frame:no-rebreak:%s' % name, 'proved' if not bad else 'refuted', 0, ['C10'], fn='MarkdownRenderer.' + name,
+                      text='the method neither reads a line-length budget nor lays text out under a limit',
+                      model=None if not bad else {'sites': bad},
+                      native=None if not bad else {'reproduced': True, 'sites': bad}))
+    return {'results': res, 'sha': {}}
+
+
 LEMMAS = {
+    'frame:no-rebreak': (no_rebreak_lemma, ['C10']),
     'classes:structure': (class_lemmas, ['C18', 'C01', 'C11', 'C16']),
     'state:globals': (state_lemmas, ['C11', 'C16']),
     'state:decorators': (decorator_lemma, ['C11']),
